@@ -98,6 +98,32 @@ def verify(sid, suite=False):
         shutil.rmtree(tmp, ignore_errors=True)
 
 
+def restatic(sid):
+    """recompute caught_by / reports of one seed from the static checks alone (no demo run)"""
+    d = os.path.join(SEEDED, sid)
+    meta = json.load(open(os.path.join(d, "meta.json")))
+    tmp = scratch()
+    try:
+        r = subprocess.run(["patch", "-p1", "-s", "-d", tmp, "-i", os.path.join(d, "patch.diff")], capture_output=True, text=True)
+        if r.returncode != 0:
+            return sid, "PATCH DOES NOT APPLY"
+        caught = {}
+        for p in PROPS:
+            rr = subprocess.run([PY, "-m", "sa.run", p, "--root", tmp, "--no-evidence"], cwd=VERIF, capture_output=True, text=True)
+            lines = rr.stdout.splitlines()
+            if rr.returncode == 1:
+                caught[p] = [l.strip() for l in lines if l.startswith("  rule=")][:3]
+            elif rr.returncode == 2:
+                caught[p + "(analysis-error)"] = [l for l in lines if l.startswith("ANALYSIS-ERROR")][:2]
+        old = meta.get("caught_by")
+        meta["caught_by"] = sorted(k for k in caught if "(" not in k)
+        meta["reports"] = caught
+        json.dump(meta, open(os.path.join(d, "meta.json"), "w"), indent=1)
+        return sid, "%s -> %s%s" % (old, meta["caught_by"], "" if meta.get("property") in meta["caught_by"] else "   ** own property silent **")
+    finally:
+        shutil.rmtree(tmp, ignore_errors=True)
+
+
 def table():
     rows = []
     for sid in sorted(os.listdir(SEEDED)):
@@ -131,5 +157,11 @@ if __name__ == "__main__":
         sid = harvest(*sys.argv[2:4])
     elif cmd == "verify":
         verify(sys.argv[2], "--suite" in sys.argv)
+    elif cmd == "restatic":
+        from concurrent.futures import ProcessPoolExecutor
+        ids = sys.argv[2:] or sorted(x for x in os.listdir(SEEDED) if os.path.exists(os.path.join(SEEDED, x, "meta.json")))
+        with ProcessPoolExecutor(max_workers=5) as ex:
+            for sid, msg in ex.map(restatic, ids):
+                print(sid, msg, flush=True)
     elif cmd == "table":
         table()
